@@ -164,7 +164,30 @@ def replay_array(prop, result, fresh, wd, info):
     return False
 
 
-HOOKS = {'ringbuffer': replay_ringbuffer, 'array': replay_array, 'arrayb': replay_array}
+def replay_resource(prop, result, fresh, wd, info):
+    """A failed monitor obligation is one step from an invariant state, not a schedule.  The replay runs the REAL
+    Resource.cpp against shim <mutex>/<condition_variable> headers and forces the two schedules the invariant exists to
+    exclude (an admitted reader that is slow to wake up while its sibling finishes, with and without a queued writer)."""
+    exe = os.path.join(wd, 'res_replay')
+    cmd = ['g++', '-std=c++20', '-g', '-O0', '-DNDEBUG', '-Wno-volatile', '-isystem', os.path.join(ROOT, 'replay', 'shim'),
+           '-I', os.path.join(REPO, 'include'), '-I', REPO, os.path.join(ROOT, 'replay', 'res_replay.cpp'), '-o', exe, '-lpthread']
+    rc, out = _run(cmd, timeout=600)
+    if rc != 0:
+        info['native'] = 'replay driver does not build against the current tree: ' + out[-1500:]
+        return False
+    outs = {}
+    for sc in ('A', 'B'):
+        for attempt in range(3):
+            rc, o = _run(['timeout', '60', exe, sc], timeout=90)
+            outs[sc] = o.strip()[-300:]
+            if 'CONFIRMED' in o:
+                info['native'] = {'schedule': 'scenario ' + sc + ' of replay/res_replay.cpp', 'outcome': 'CONFIRMED', 'output': outs[sc]}
+                return True
+    info['native'] = {'outcome': 'NOT-REPRODUCED', 'tried': outs}
+    return False
+
+
+HOOKS = {'resource': replay_resource, 'ringbuffer': replay_ringbuffer, 'array': replay_array, 'arrayb': replay_array}
 
 
 def make_replay(prop, result, fresh, wd, tier):
